@@ -81,10 +81,10 @@ def canon(x, depth=0):
         return ["exc", type(x).__name__]
     if isinstance(x, np.ndarray) and KEEP_ORDER[0]:
         # snapshot mode (O2): also what a result comparison deliberately ignores
-        base = ["arr", list(x.shape), [canon(e, depth + 1) if x.dtype == object else _num(e) for e in x.ravel().tolist()]]
+        base = ["arr", list(x.shape), [canon(e, depth + 1) if x.dtype.kind not in "biufc" else _num(e) for e in x.ravel().tolist()]]
         return base + [str(x.dtype), bool(x.flags.writeable)]
     if isinstance(x, np.ndarray):
-        if x.dtype == object:
+        if x.dtype.kind not in "biufc":
             return ["arr", list(x.shape), [canon(e, depth + 1) for e in x.ravel().tolist()]]
         return ["arr", list(x.shape), [_num(e) for e in x.ravel().tolist()]]
     if isinstance(x, tuple) and KEEP_ORDER[0]:
@@ -155,6 +155,10 @@ def _partclose(pa, pb, tol):
     return abs(pa - pb) <= tol
 
 
+ABS_FLOOR = 1e-12      # times the largest magnitude anywhere in the two results: rounding residue of O(scale) terms
+_GLOBAL = [0.0]
+
+
 def _numclose(a, b, scale):
     if a == b:
         return True
@@ -163,7 +167,7 @@ def _numclose(a, b, scale):
     for p in (ca.real, ca.imag, cb.real, cb.imag):
         if math.isfinite(p) and abs(p) > mag:
             mag = abs(p)
-    tol = REL_TOL * mag
+    tol = max(REL_TOL * mag, ABS_FLOOR * _GLOBAL[0])
     return _partclose(ca.real, cb.real, tol) and _partclose(ca.imag, cb.imag, tol)
 
 
@@ -179,8 +183,35 @@ def _scale(v):
     return m
 
 
+def _global_scale(x):
+    m = 0.0
+    stack = [x]
+    while stack:
+        v = stack.pop()
+        if isinstance(v, list):
+            stack.extend(v)
+        elif _isnum(v):
+            cv = complex(v)
+            for p in (abs(cv.real), abs(cv.imag)):
+                if math.isfinite(p) and p > m:
+                    m = p
+    return m
+
+
 def diff(a, b, path="", scale=0.0):
-    """None when equal (tolerantly); otherwise a short description of the first difference."""
+    """None when equal (tolerantly); otherwise a short description of the first difference.
+    Numbers agree when they differ by at most 1e-9 relative to themselves (or to the vector they sit in), or by
+    1e-12 of the largest magnitude anywhere in the two results (a residue 1e-17 next to values of order 1 is zero)."""
+    if path == "":
+        _GLOBAL[0] = max(_global_scale(a), _global_scale(b))
+        try:
+            return _diff(a, b, path, scale)
+        finally:
+            _GLOBAL[0] = 0.0
+    return _diff(a, b, path, scale)
+
+
+def _diff(a, b, path="", scale=0.0):
     if _isnum(a) and _isnum(b):
         return None if _numclose(a, b, scale) else f"{path}: {a!r} != {b!r}"
     if type(a) != type(b):
@@ -193,7 +224,7 @@ def diff(a, b, path="", scale=0.0):
         if a and all(_isnum(e) for e in a) and all(_isnum(e) for e in b):
             sc = max(_scale(a), _scale(b))
         for i, (x, y) in enumerate(zip(a, b)):
-            d = diff(x, y, f"{path}[{i}]", sc)
+            d = _diff(x, y, f"{path}[{i}]", sc)
             if d:
                 return d
         return None
